@@ -228,6 +228,42 @@ func checkC12(p *Prog, r *Report) {
 				default:
 					rClose.OK(cc, posOf(i), "connected event ∧ oneShell")
 				}
+				/* And on nothing else: the event says a shell was fully
+				attached, which is all the property asks; a further
+				test of state which has moved on since (is it still
+				attached?) lets a shell which came and went keep the
+				listener open. */
+				if okConn && okOne {
+					dcc := decodeCond(connIf.Cond)
+					k := 1
+					if dcc.Eq {
+						k = 0
+					}
+					noSel := func(j ssa.Instruction) bool { _, is := j.(*ssa.Select); return is }
+					hits := func(from Loc) bool {
+						return nil != reachQ{From: from, Block: noSel, Target: func(j ssa.Instruction) bool { return j == i }}.run()
+					}
+					var extra *ssa.If
+					what := ""
+					reachQ{From: edgeLoc(connIf.Block(), k), Block: noSel, Target: func(j ssa.Instruction) bool {
+						ifi, ok := j.(*ssa.If)
+						if !ok || nil != extra {
+							return false
+						}
+						if hits(edgeLoc(ifi.Block(), 0)) == hits(edgeLoc(ifi.Block(), 1)) {
+							return false
+						}
+						if wh, is := mutableStateRead(p, ifi.Cond, 0); is {
+							extra, what = ifi, wh
+						}
+						return false
+					}}.run()
+					if nil != extra {
+						rClose.Bad(cc+":only-on-event-and-flag", posOf(extra), "on the connected event under -one-shell the listener is closed only if a further test of %s allows it: that state has moved on since the event was queued, so a shell which was fully attached and ended quickly leaves the listener open", what)
+					} else {
+						rClose.OK(cc+":only-on-event-and-flag", posOf(i), "nothing but the event type and Server.oneShell decides")
+					}
+				}
 			case nil != hnew && fn.Parent() == hnew && newClosesOnlyOnError(hnew, i):
 				rClose.OK(cc, posOf(i), "a deferred function of New closes the listener unless New is about to return successfully")
 			default:
@@ -367,6 +403,7 @@ func checkC12(p *Prog, r *Report) {
 	involved, on every way round (ReadLine itself cannot be interrupted, so
 	this is the "at the latest"). */
 	checkC12InputLoop(p, r, rExit)
+	checkC12HandlersReturn(p, r, r.Rule("handlers-return", "once the broker's Connect* has returned the shell handlers read no more of the request: Shutdown is not kept waiting by the far end"))
 
 	/* 3. Clean exit. */
 	sh := p.Func(hsrvPkg, "Server", "serveHTTP")
@@ -863,5 +900,67 @@ func checkC12InputLoop(p *Prog, r *Report, ru *Rule) {
 	}
 	if 0 == n {
 		ru.Unproven("opshell:input-loop", token.NoPos, "no loop reading the operator's lines (goxterm ReadLine) found in lib/opshell")
+	}
+}
+
+// checkC12HandlersReturn: once the broker has let go of a stream (Connect*
+// returned: the shell's direction has ended) the handler goes home.  A
+// handler which goes on reading the request body — draining it, say — is
+// bound by nothing: the far end decides when that ends, http.Server.Shutdown
+// waits for the handler, and under -one-shell the program then never exits.
+func checkC12HandlersReturn(p *Prog, r *Report, ru *Rule) {
+	n := 0
+	seen := map[*ssa.Call]bool{}
+	for _, rt := range muxRoutes(p) {
+		if nil == rt.Handler {
+			continue
+		}
+		for _, f := range withAnons(rt.Handler) {
+			eachInstr(f, func(i ssa.Instruction) {
+				call, ok := i.(*ssa.Call)
+				if !ok || seen[call] {
+					return
+				}
+				cc := call.Common()
+				if nil == cc.StaticCallee() || "Broker" != recvTypeName(cc.StaticCallee()) || !strings.HasPrefix(cc.StaticCallee().Name(), "Connect") {
+					return
+				}
+				seen[call] = true
+				n++
+				c := fmt.Sprintf("%s→%s:then-returns", fnName(rt.Handler), cc.StaticCallee().Name())
+				isBody := func(v ssa.Value) bool {
+					return operandsReach(v, func(x ssa.Value) bool {
+						fv, base := loadedField(x)
+						return nil != fv && "Body" == fv.Name() && typeIs(base.Type(), "net/http", "Request")
+					})
+				}
+				bad := reachQ{From: locOf(call), Target: func(j ssa.Instruction) bool {
+					c2 := callCommon(j)
+					if nil == c2 || j == ssa.Instruction(call) {
+						return false
+					}
+					if _, isDefer := j.(*ssa.Defer); isDefer {
+						return false
+					}
+					if strings.HasSuffix(calleeName(c2), ".Close") {
+						return false
+					}
+					for _, a := range callArgs(c2) {
+						if isBody(a) {
+							return true
+						}
+					}
+					return false
+				}}.run()
+				if nil != bad {
+					ru.Bad(c, posOf(bad), "after the broker has returned the handler still reads the request body (%s): nothing bounds that read, so Shutdown — and with -one-shell the program's exit — waits for the far end", calleeName(callCommon(bad)))
+				} else {
+					ru.OK(c, posOf(call), "nothing reads the request body once the broker has returned")
+				}
+			})
+		}
+	}
+	if n < 3 {
+		ru.Unproven("handlers", token.NoPos, "%d calls of the broker's Connect* found in the handlers, 3 expected", n)
 	}
 }
